@@ -1,2 +1,308 @@
-//! World extension: lp flows (instruction builders over the real program).
+//! World extension: lp flows (instruction builders over the real liquidity-provider program).
 use super::*;
+use anchor_lang::AccountDeserialize;
+use gmsol_liquidity_provider as lp;
+use std::collections::BTreeSet;
+
+pub const LP_PID: Pubkey = lp::ID;
+
+pub fn lp_global_state() -> Pubkey {
+    Pubkey::find_program_address(&[lp::GLOBAL_STATE_SEED], &LP_PID).0
+}
+
+pub fn lp_controller(lp_mint: &Pubkey, index: u64) -> Pubkey {
+    Pubkey::find_program_address(
+        &[lp::LP_TOKEN_CONTROLLER_SEED, lp_global_state().as_ref(), lp_mint.as_ref(), &index.to_le_bytes()],
+        &LP_PID,
+    )
+    .0
+}
+
+pub fn lp_position(controller: &Pubkey, owner: &Pubkey, position_id: u64) -> Pubkey {
+    Pubkey::find_program_address(
+        &[lp::POSITION_SEED, controller.as_ref(), owner.as_ref(), &position_id.to_le_bytes()],
+        &LP_PID,
+    )
+    .0
+}
+
+pub fn lp_position_vault(position: &Pubkey) -> Pubkey {
+    Pubkey::find_program_address(&[lp::VAULT_SEED, position.as_ref()], &LP_PID).0
+}
+
+/// Borsh (`#[account]`) account reader for the LP program's accounts.
+pub fn lp_load<T: AccountDeserialize>(svm: &Svm, key: &Pubkey) -> Option<T> {
+    let a = svm.get(key)?;
+    if a.owner != LP_PID {
+        return None;
+    }
+    T::try_deserialize(&mut &a.data[..]).ok()
+}
+
+/// GT parameters as in the repository's integration-test deployment (`initialize_gt(7)`), with the
+/// minting cost / growth left to the caller.
+#[derive(Clone, Debug)]
+pub struct GtParams {
+    pub decimals: u8,
+    pub initial_minting_cost: u128,
+    pub grow_factor: u128,
+    pub grow_step: u64,
+    pub ranks: Vec<u64>,
+}
+
+impl GtParams {
+    pub fn like_tests() -> Self {
+        let decimals = 7u8;
+        let unit = 10u64.pow(decimals as u32);
+        Self {
+            decimals,
+            initial_minting_cost: UNIT / 100 / 10u128.pow(decimals as u32),
+            grow_factor: 101 * UNIT / 100,
+            grow_step: 10 * unit,
+            ranks: vec![10 * unit, 30 * unit, 300 * unit, 1_000 * unit, 3_000 * unit, 10_000 * unit],
+        }
+    }
+}
+
+impl World {
+    /// `initialize_gt` on the store (keeper holds MARKET_KEEPER).
+    pub fn lp_initialize_gt(&mut self, p: &GtParams) -> TxResult {
+        let (keeper, store) = (self.keeper, self.store);
+        self.send(
+            &[six(
+                sa::InitializeGt { authority: keeper, store, system_program: system_program::ID },
+                si::InitializeGt {
+                    decimals: p.decimals,
+                    initial_minting_cost: p.initial_minting_cost,
+                    grow_factor: p.grow_factor,
+                    grow_step: p.grow_step,
+                    ranks: p.ranks.clone(),
+                },
+            )],
+            &[keeper],
+        )
+    }
+
+    /// LP `initialize`: creates the global state with `authority` as administrator.
+    pub fn lp_initialize(&mut self, authority: Pubkey, min_stake_value: u128, initial_apy: u128) -> TxResult {
+        self.send(
+            &[ix(
+                LP_PID,
+                lp::accounts::Initialize { global_state: lp_global_state(), authority, system_program: system_program::ID },
+                lp::instruction::Initialize { min_stake_value, initial_apy },
+            )],
+            &[authority],
+        )
+    }
+
+    /// The oracle buffer used by LP pricing CPIs: its authority is the LP global-state PDA.
+    pub fn lp_oracle(&self) -> Pubkey {
+        key("lp-oracle")
+    }
+
+    pub fn lp_initialize_oracle(&mut self) -> TxResult {
+        let (keeper, store) = (self.keeper, self.store);
+        let oracle = self.lp_oracle();
+        let size = 8 + std::mem::size_of::<gmsol_store::states::Oracle>();
+        let lamports = self.svm.rent.minimum_balance(size);
+        self.svm.set_account(oracle, Account::new(lamports, vec![0; size], STORE_PID));
+        self.send(
+            &[six(
+                sa::InitializeOracle { payer: keeper, authority: lp_global_state(), store, oracle, system_program: system_program::ID },
+                si::InitializeOracle {},
+            )],
+            &[keeper],
+        )
+    }
+
+    /// GT state + LP global state + GT_CONTROLLER for the LP PDA + LP oracle (panics = harness error).
+    pub fn lp_bootstrap(&mut self, authority: Pubkey, gt: &GtParams, min_stake_value: u128, initial_apy: u128) {
+        self.svm.airdrop(&authority, 1_000 * LAMPORTS);
+        if let Err((e, _)) = self.lp_initialize_gt(gt) {
+            panic!("bootstrap step `initialize_gt` failed: {e:?}");
+        }
+        if let Err((e, _)) = self.lp_initialize(authority, min_stake_value, initial_apy) {
+            panic!("bootstrap step `lp initialize` failed: {e:?}");
+        }
+        if let Err((e, _)) = self.grant(&lp_global_state(), RoleKey::GT_CONTROLLER) {
+            panic!("bootstrap step `grant GT_CONTROLLER to LP PDA` failed: {e:?}");
+        }
+        if let Err((e, _)) = self.lp_initialize_oracle() {
+            panic!("bootstrap step `lp oracle` failed: {e:?}");
+        }
+    }
+
+    pub fn lp_create_controller_ix(&self, authority: Pubkey, lp_mint: Pubkey, index: u64) -> Instruction {
+        ix(
+            LP_PID,
+            lp::accounts::CreateLpTokenController {
+                global_state: lp_global_state(),
+                controller: lp_controller(&lp_mint, index),
+                authority,
+                system_program: system_program::ID,
+            },
+            lp::instruction::CreateLpTokenController { lp_token_mint: lp_mint, controller_index: index },
+        )
+    }
+
+    pub fn lp_disable_controller_ix(&self, authority: Pubkey, controller: Pubkey) -> Instruction {
+        ix(
+            LP_PID,
+            lp::accounts::DisableLpTokenController {
+                global_state: lp_global_state(),
+                controller,
+                gt_store: self.store,
+                gt_program: STORE_PID,
+                authority,
+            },
+            lp::instruction::DisableLpTokenController {},
+        )
+    }
+
+    pub fn lp_set_claim_enabled_ix(&self, authority: Pubkey, enabled: bool) -> Instruction {
+        ix(
+            LP_PID,
+            lp::accounts::SetClaimEnabled { global_state: lp_global_state(), authority },
+            lp::instruction::SetClaimEnabled { enabled },
+        )
+    }
+
+    pub fn lp_update_min_stake_value_ix(&self, authority: Pubkey, v: u128) -> Instruction {
+        ix(
+            LP_PID,
+            lp::accounts::UpdateMinStakeValue { global_state: lp_global_state(), authority },
+            lp::instruction::UpdateMinStakeValue { new_min_stake_value: v },
+        )
+    }
+
+    pub fn lp_update_apy_sparse_ix(&self, authority: Pubkey, idx: Vec<u8>, vals: Vec<u128>) -> Instruction {
+        ix(
+            LP_PID,
+            lp::accounts::UpdateApyGradient { global_state: lp_global_state(), authority },
+            lp::instruction::UpdateApyGradientSparse { bucket_indices: idx, apy_values: vals },
+        )
+    }
+
+    pub fn lp_update_apy_range_ix(&self, authority: Pubkey, start: u8, end: u8, vals: Vec<u128>) -> Instruction {
+        ix(
+            LP_PID,
+            lp::accounts::UpdateApyGradient { global_state: lp_global_state(), authority },
+            lp::instruction::UpdateApyGradientRange { start_bucket: start, end_bucket: end, apy_values: vals },
+        )
+    }
+
+    /// Feed accounts of a market in the order `get_market_token_value` expects (unique tokens sorted by address).
+    pub fn lp_market_feed_metas(&self, market: usize) -> Vec<AccountMeta> {
+        let m = &self.markets[market];
+        let set: BTreeSet<Pubkey> =
+            [self.tokens[m.index].mint, self.tokens[m.long].mint, self.tokens[m.short].mint].into_iter().collect();
+        let v: Vec<Pubkey> = set.into_iter().collect();
+        self.feed_metas(&v)
+    }
+
+    /// `stake_gm` for `owner` on `market`'s token under controller `controller_index`.
+    pub fn lp_stake_gm_ix(&self, owner: Pubkey, market: usize, controller_index: u64, position_id: u64, amount: u64) -> Instruction {
+        let m = &self.markets[market];
+        let controller = lp_controller(&m.market_token, controller_index);
+        let position = lp_position(&controller, &owner, position_id);
+        let mut i = ix(
+            LP_PID,
+            lp::accounts::StakeGm {
+                global_state: lp_global_state(),
+                controller,
+                lp_mint: m.market_token,
+                position,
+                position_vault: lp_position_vault(&position),
+                gt_store: self.store,
+                gt_program: STORE_PID,
+                owner,
+                user_lp_token: token::ata(&owner, &m.market_token),
+                token_map: self.token_map,
+                oracle: self.lp_oracle(),
+                market: m.market,
+                event_authority: self.event_authority(),
+                system_program: system_program::ID,
+                token_program: spl_token::ID,
+            },
+            lp::instruction::StakeGm { position_id, gm_staked_amount: amount },
+        );
+        i.accounts.extend(self.lp_market_feed_metas(market));
+        i
+    }
+
+    pub fn lp_claim_gt_ix(&self, owner: Pubkey, lp_mint: Pubkey, controller_index: u64, position_id: u64) -> Instruction {
+        let controller = lp_controller(&lp_mint, controller_index);
+        ix(
+            LP_PID,
+            lp::accounts::ClaimGt {
+                global_state: lp_global_state(),
+                controller,
+                store: self.store,
+                gt_program: STORE_PID,
+                position: lp_position(&controller, &owner, position_id),
+                owner,
+                gt_user: pda::find_user_address(&self.store, &owner, &STORE_PID).0,
+                event_authority: self.event_authority(),
+            },
+            lp::instruction::ClaimGt { _position_id: position_id },
+        )
+    }
+
+    pub fn lp_calculate_gt_reward_ix(&self, owner: Pubkey, lp_mint: Pubkey, controller_index: u64, position_id: u64) -> Instruction {
+        let controller = lp_controller(&lp_mint, controller_index);
+        ix(
+            LP_PID,
+            lp::accounts::CalculateGtReward {
+                global_state: lp_global_state(),
+                controller,
+                gt_store: self.store,
+                gt_program: STORE_PID,
+                position: lp_position(&controller, &owner, position_id),
+                owner,
+            },
+            lp::instruction::CalculateGtReward {},
+        )
+    }
+
+    pub fn lp_unstake_ix(&self, owner: Pubkey, lp_mint: Pubkey, controller_index: u64, position_id: u64, amount: u64) -> Instruction {
+        let controller = lp_controller(&lp_mint, controller_index);
+        let position = lp_position(&controller, &owner, position_id);
+        ix(
+            LP_PID,
+            lp::accounts::UnstakeLp {
+                global_state: lp_global_state(),
+                controller,
+                lp_mint,
+                store: self.store,
+                gt_program: STORE_PID,
+                position,
+                position_vault: lp_position_vault(&position),
+                owner,
+                gt_user: pda::find_user_address(&self.store, &owner, &STORE_PID).0,
+                user_lp_token: token::ata(&owner, &lp_mint),
+                event_authority: self.event_authority(),
+                token_program: spl_token::ID,
+            },
+            lp::instruction::UnstakeLp { _position_id: position_id, unstake_amount: amount },
+        )
+    }
+
+    /// The store's current cumulative inverse-cost factor `C(now)` as the LP program would obtain it
+    /// (simulation of the real `update_gt_cumulative_inv_cost_factor`; nothing is committed).
+    pub fn lp_peek_cum_inv_cost(&mut self) -> Option<u128> {
+        let (keeper, store) = (self.keeper, self.store);
+        let i = six(sa::UpdateGtCumulativeInvCostFactor { authority: keeper, store }, si::UpdateGtCumulativeInvCostFactor {});
+        let meta = self.svm.simulate(&[i], &[keeper]).ok()?;
+        let (pid, data) = meta.return_data?;
+        if pid != STORE_PID || data.len() != 16 {
+            return None;
+        }
+        Some(u128::from_le_bytes(data.try_into().ok()?))
+    }
+
+    /// GT balance of a user (0 if the user account does not exist).
+    pub fn lp_gt_amount(&self, owner: &Pubkey) -> u64 {
+        let user = pda::find_user_address(&self.store, owner, &STORE_PID).0;
+        exchange::load::<gmsol_store::states::UserHeader>(&self.svm, &user).map(|u| u.gt().amount()).unwrap_or(0)
+    }
+}
